@@ -1,11 +1,15 @@
 // C15 — token failures are retried only when safe and reported faithfully.
 //
 // (a) all per-attempt outcome sequences x cancellation/deadline at every point,
-//     through the real token/worker retry loop compiled against a virtual
-//     clock and virtual timeout contexts (overlay), with a scripted transport;
+//
+//	through the real token/worker retry loop compiled against a virtual
+//	clock and virtual timeout contexts (overlay), with a scripted transport;
+//
 // (b) error classification end to end through the real worker RPC handler
-//     (cmdline/workercmd) installed as the transport of the real worker client;
-//     cookie variants;
+//
+//	(cmdline/workercmd) installed as the transport of the real worker client;
+//	cookie variants;
+//
 // (c) BFS over key-cache operation histories in virtual time.
 package main
 
@@ -86,16 +90,16 @@ type attempt struct {
 }
 
 type execution struct {
-	Retries   int
-	Attempts  []attempt
-	Delays    []time.Duration
-	Cancelled string // "", "cancel", "deadline"
-	CancelAt  string
-	Err       error
-	Elapsed   time.Duration
-	AfterCancelAdvance time.Duration
+	Retries             int
+	Attempts            []attempt
+	Delays              []time.Duration
+	Cancelled           string // "", "cancel", "deadline"
+	CancelAt            string
+	Err                 error
+	Elapsed             time.Duration
+	AfterCancelAdvance  time.Duration
 	AttemptsAfterCancel int
-	Panic     string
+	Panic               string
 }
 
 func retryPhase() {
@@ -158,21 +162,35 @@ func runRetry(c *mc.Ctx, tok *worker.WorkerToken, retries, limit int) (ex execut
 			base.ExpireNow()
 		}
 	}
-	vcontext.OnTimeout = func(v *vcontext.VCtx) {
-		if v.D == attemptTimeout*time.Second {
-			return // per-attempt deadline: fires only if the transport says so
-		}
-		// back-off wait
-		ex.Delays = append(ex.Delays, v.D)
+	// a back-off wait, whichever primitive implements it (a timeout context
+	// or a timer next to the caller's Done channel): it elapses, or the caller
+	// goes away during it
+	backoff := func(d time.Duration, elapse func()) {
+		ex.Delays = append(ex.Delays, d)
 		switch c.Choose(3, "backoff") {
 		case 0:
-			v.Expire()
+			elapse()
 		case 1:
 			endCaller("cancel", fmt.Sprintf("backoff-%d", len(ex.Delays)))
 		case 2:
 			endCaller("deadline", fmt.Sprintf("backoff-%d", len(ex.Delays)))
 		}
 	}
+	vcontext.OnTimeout = func(v *vcontext.VCtx) {
+		if v.D == attemptTimeout*time.Second {
+			return // per-attempt deadline: fires only if the transport says so
+		}
+		backoff(v.D, v.Expire)
+	}
+	vtime.OnTimer = func(t *vtime.Timer) {
+		if ex.Cancelled != "" {
+			// the caller is already gone: its Done channel is what ends this wait
+			// (a timeout context derived from it would not even start)
+			return
+		}
+		backoff(t.D(), func() { t.Elapse() })
+	}
+	defer func() { vtime.OnTimer = nil }()
 	http.DefaultClient.Transport = rt(func(req *http.Request) (*http.Response, error) {
 		ctx := req.Context()
 		if err := ctx.Err(); err != nil {
@@ -405,6 +423,8 @@ func handlerPhase() {
 		}
 	}
 	defer func() { vcontext.OnTimeout = nil }()
+	vtime.OnTimer = func(t *vtime.Timer) { t.Elapse() } // a back-off built on a timer elapses too
+	defer func() { vtime.OnTimer = nil }()
 	type tokErr struct {
 		name      string
 		err       func() error
@@ -710,6 +730,127 @@ func cachePhase() {
 	run.Set("cache_states", len(seen))
 }
 
+// ---- (d) concurrent lookups through the key cache ----
+
+// cacheConcurrentPhase: 2-3 threads look the same key name up through one
+// tokencache.Cache at the same time (package compiled against the hooked
+// sync), every interleaving up to a preemption bound. The token holds two
+// generations of the key: an unpinned lookup finds the current one (id1), a
+// lookup that pins an identifier finds exactly that one. Whatever the cache
+// does to share work between callers, a pinned caller must get its identifier.
+func cacheConcurrentPhase() {
+	type look struct{ pin string }
+	type scen struct {
+		name    string
+		warm    bool // one unpinned lookup before the threads start (entry cached)
+		expired bool // ... and the entry has expired since
+		threads [][]look
+	}
+	scens := []scen{
+		{"cold:unpinned|pinned-id2", false, false, [][]look{{{""}}, {{"id2"}}}},
+		{"cold:pinned-id2|unpinned", false, false, [][]look{{{"id2"}}, {{""}}}},
+		{"cold:pinned-id1|pinned-id2", false, false, [][]look{{{"id1"}}, {{"id2"}}}},
+		{"expired:unpinned|pinned-id2", true, true, [][]look{{{""}}, {{"id2"}}}},
+		{"warm:unpinned|pinned-id2|unpinned", true, false, [][]look{{{""}}, {{"id2"}}, {{""}}}},
+		{"cold:unpinned,pinned-id2|pinned-id2,unpinned", false, false, [][]look{{{""}, {"id2"}}, {{"id2"}, {""}}}},
+	}
+	bound := 2
+	if run.Thorough() {
+		bound = 4
+	}
+	const expiry = 10 * time.Minute
+	total := 0
+	for _, sc := range scens {
+		st := mc.Explore(mc.Options{MaxDeviations: bound}, func(c *mc.Ctx) {
+			vtime.ResetClock()
+			faketoken.Reset()
+			cfg := relicx.BaseConfig(faketoken.Type)
+			base, _ := faketoken.Open(cfg, "tok", nil)
+			faketoken.S.GetKey = func(ctx context.Context, t, k string) (token.Key, error) {
+				id := "id1"
+				if want := token.KeyID(ctx); len(want) != 0 {
+					id = string(want)
+				}
+				return &faketoken.Key{Tok: t, Name: k, ID: []byte(id)}, nil
+			}
+			cache := tokencache.New(base, expiry)
+			if sc.warm {
+				cache.GetKey(context.Background(), "rsaA")
+				if sc.expired {
+					vtime.Advance(expiry + 1)
+				}
+			}
+			s := mc.NewSched(c)
+			faketoken.S.Hook = func(call faketoken.Call) {
+				if t := s.Me(); t != nil {
+					t.Point("token." + call.Op)
+				}
+			}
+			type res struct {
+				pin, got string
+				err      error
+			}
+			results := make([][]res, len(sc.threads))
+			for i, th := range sc.threads {
+				i, th := i, th
+				s.Go(fmt.Sprintf("t%d", i+1), func() {
+					for _, l := range th {
+						ctx := context.Background()
+						if l.pin != "" {
+							ctx = token.WithKeyID(ctx, []byte(l.pin))
+						}
+						s.Me().Point("lookup")
+						key, err := cache.GetKey(ctx, "rsaA")
+						r := res{pin: l.pin, err: err}
+						if err == nil {
+							r.got = string(key.GetID())
+						}
+						results[i] = append(results[i], r)
+					}
+				})
+			}
+			s.Run()
+			faketoken.S.Hook = nil
+			run.Eval(1)
+			desc := fmt.Sprintf("cache scenario %s, schedule %v", sc.name, c.Trace)
+			replay := map[string]any{"scenario": sc.name, "choices": c.Trace, "labels": c.Labels}
+			if s.Deadlock {
+				run.Violation("cache-concurrent:deadlock", desc+"\n"+strings.Join(s.Log, " "), replay)
+				return
+			}
+			if len(s.Panics) > 0 {
+				run.Violation("cache-concurrent:panic", desc+": "+s.Panics[0], replay)
+				return
+			}
+			if s.Horizon {
+				run.Capped("cache-concurrent: an execution exceeded the scheduling-point horizon: " + sc.name)
+				return
+			}
+			if c.Deviations() > 0 {
+				run.Distinct("cache-concurrent|" + sc.name + fmt.Sprint(c.Trace))
+			}
+			for i, rs := range results {
+				for _, r := range rs {
+					who := fmt.Sprintf("%s: thread %d lookup pinned=%q", desc, i+1, r.pin)
+					switch {
+					case r.err != nil:
+						run.Violation("cache-concurrent:lookup-fails-although-token-is-fine", who+": "+r.err.Error(), replay)
+					case r.pin != "" && r.got != r.pin:
+						run.Violation("cache-concurrent:pinned-request-got-key-with-other-id", fmt.Sprintf("%s: got key id %q", who, r.got), replay)
+					case r.pin == "" && r.got != "id1":
+						run.Violation("cache-concurrent:unpinned-request-got-another-callers-pinned-key", fmt.Sprintf("%s: got key id %q, the token's current key is id1", who, r.got), replay)
+					}
+				}
+			}
+			run.Outcome("cache-concurrent:" + sc.name + ":ok")
+		})
+		run.AddStates(st.Executions)
+		run.AddTransitions(st.ChoicePoints)
+		total += st.Executions
+	}
+	run.Set("cache_concurrent_schedules", map[string]any{"scenarios": len(scens), "executions": total, "preemption_bound": bound})
+}
+
 func main() {
 	relicx.Quiet()
 	run = vlib.NewRun("C15", "model_checking")
@@ -717,7 +858,8 @@ func main() {
 	retryPhase()
 	handlerPhase()
 	cachePhase()
-	run.Rule("(a) every sequence of per-attempt outcomes (15 outcomes incl. 5xx, refused, timeout, truncated reply, retryable/permanent/key-usage token errors, malformed replies; restricted to ok+transient beyond the third attempt) up to the configured limit x caller cancel/deadline before the call, during every attempt and during every back-off, executed on the real retry loop in virtual time; (b) every scripted token error class x {getKey, sign} through the real worker RPC handler, and 7 cookie variants x 3 RPC paths; (c) BFS to fixpoint over key-cache histories (get, get pinned id1/id2, half/whole expiry, rotate, token failing on/off). distinct_nontrivial = histories with >=2 attempts or a cancellation, plus handler/cookie/cache cases")
+	cacheConcurrentPhase()
+	run.Rule("(a) every sequence of per-attempt outcomes (15 outcomes incl. 5xx, refused, timeout, truncated reply, retryable/permanent/key-usage token errors, malformed replies; restricted to ok+transient beyond the third attempt) up to the configured limit x caller cancel/deadline before the call, during every attempt and during every back-off, executed on the real retry loop in virtual time; (b) every scripted token error class x {getKey, sign} through the real worker RPC handler, and 7 cookie variants x 3 RPC paths; (c) BFS to fixpoint over key-cache histories (get, get pinned id1/id2, half/whole expiry, rotate, token failing on/off); (d) 6 scenarios of 2-3 threads looking one key name up through the same cache at once (pinned and unpinned callers, cold / warm / expired entry), every interleaving of the hooked lock and token operations up to 2 (thorough 4) preemptions, threads blocked on unhooked primitives followed by the scheduler's monitor. distinct_nontrivial = histories with >=2 attempts or a cancellation, plus handler/cookie/cache cases")
 	run.Assume("the transient set is {HTTP 500,502,503,504, connection refused, per-attempt timeout, truncated reply, token error flagged retryable}; HTTP 4xx, malformed replies, non-retryable and key-usage token errors are permanent")
 	run.Assume("back-off is judged for shape only (one positive, non-decreasing delay before every retry, below 5 minutes), not for its exact constants")
 	run.Assume("an unclassified plain token error may be treated either way by the RPC handler")
